@@ -549,6 +549,107 @@ mut("C08", "edge_added_by_client", L + "analysis/dead_variable_elimination/mod.r
     }
     graph.reverse();""", ["R2|only-GraphBuilder-builds"], "a client adds an edge to the CFG")
 
+# ---------------- C15
+CX = L + "checkers/cwe_476/context.rs"
+TM = L + "analysis/taint/mod.rs"
+TS = L + "analysis/taint/state.rs"
+mut("C15", "store_arm_removed", CX, """            Def::Store { address, .. } if old_state.eval(address).is_tainted() => {
+                self.generate_cwe_warning(&def.tid);
+                None
+            }
+""", "", ["R1|update_def_post|Store"], "stores through the unchecked pointer are not reported")
+mut("C15", "new_state_eval", CX, "Def::Load { var: _, address } if old_state.eval(address).is_tainted() => {", "Def::Load { var: _, address } if new_state.eval(address).is_tainted() => {", ["R1|update_def_post|Load|state-before-def"], "address evaluated after the definition")
+mut("C15", "untaken_arm_removed", CX, """            (
+                _,
+                Some(Term {
+                    tid: _,
+                    term: Jmp::CBranch { condition, .. },
+                }),
+            ) if state.eval(condition).is_tainted() => None,
+""", "", ["R2|update_jump|untaken-conditional"], "fall-through edge of a check keeps the taint")
+mut("C15", "jump_warns", CX, "(Jmp::CBranch { condition, .. }, _) if state.eval(condition).is_tainted() => None,", "(Jmp::CBranch { condition, .. }, _) if state.eval(condition).is_tainted() => {\n                self.generate_cwe_warning(&jump.tid);\n                None\n            }", ["R2|update_jump|no-warning"], "a NULL check is reported as a dereference")
+mut("C15", "extern_no_clobber", CX, """                    new_state.remove_non_callee_saved_taint(
+                        self.project.get_calling_convention(extern_symbol),
+                    );
+
+                    Some(new_state)""", """                    let _ = &mut new_state;
+
+                    Some(new_state)""", ["R3|update_call_stub|clobber"], "taint survives in caller-saved registers across library calls")
+mut("C15", "store_value_instead_of_address", CX, "Def::Store { address, .. } if old_state.eval(address).is_tainted() => {", "Def::Store { value: address, .. } if old_state.eval(address).is_tainted() => {", ["R1|update_def_post|Store|address-slot"], "the stored VALUE is tested instead of the address")
+mut("C15", "assign_merges_old_taint", TM, "new_state.set_register_taint(var, state.eval(value));", "new_state.set_register_taint(var, state.eval(value).merge(&state.get_register_taint(var)));", ["R6|update_def_assign"], "overwriting a register keeps its old taint")
+mut("C15", "float_params_unchecked", TS, """            let mut all_parameters = calling_conv.integer_parameter_register.clone();
+            for float_param in calling_conv.float_parameter_register.iter() {
+                for var in float_param.input_vars() {
+                    all_parameters.push(var.clone());
+                }
+            }
+            self.check_register_list_for_taint::<POINTER_TAINT>(
+                vsa_result,
+                call_tid,""", """            let all_parameters = calling_conv.integer_parameter_register.clone();
+            self.check_register_list_for_taint::<POINTER_TAINT>(
+                vsa_result,
+                call_tid,""", ["R4|generic-params|float-registers"], "float parameter registers not checked at calls")
+mut("C15", "return_keeps_state", CX, "        Some(TaState::new_empty())\n    }", "        Some(state.clone())\n    }", ["R5|update_return_callee|empty-state"], "callee taint flows into the caller")
+mut("C15", "stop_without_warning", CX, """            call_tid,
+            self.project,
+            calling_convention_hint,
+        ) {
+            self.generate_cwe_warning(call_tid);
+""", """            call_tid,
+            self.project,
+            calling_convention_hint,
+        ) {
+""", ["update_call_generic"], "tainted parameter of an indirect call silently dropped")
+mut("C15", "first_wins_hashmap", L + "checkers/cwe_476.rs", "    let mut cwe_warnings = BTreeMap::new();\n    for cwe in cwe_receiver.try_iter() {", "    let mut cwe_warnings = std::collections::HashMap::new();\n    for cwe in cwe_receiver.try_iter() {", ["R8|check_cwe|dedup"], "warnings deduplicated in a hash map")
+
+# ---------------- C14
+FC = L + "analysis/function_signature/context/mod.rs"
+FS = L + "analysis/function_signature/state/mod.rs"
+AP = L + "analysis/function_signature/access_pattern.rs"
+mut("C14", "load_address_not_flagged", FC, """                new_state.set_deref_flag_for_pointer_inputs_of_expression(address);
+                new_state.set_read_flag_for_input_ids_of_expression(address);""", """                new_state.set_deref_flag_for_pointer_inputs_of_expression(address);""", ["R2|update_def|Def::Load.address"], "registers used only in a load address are not read-flagged")
+mut("C14", "merge_and", AP, "read: self.read || other.read,", "read: self.read && other.read,", ["R3|AccessPattern::merge|read"], "a read on only one path is forgotten at joins")
+mut("C14", "cbranch_not_flagged", FC, """            Jmp::CBranch { condition, .. } => {
+                new_state.set_read_flag_for_input_ids_of_expression(condition);
+            }
+            _ => (),""", """            _ => (),""", ["R2|update_jump|Jmp::CBranch.condition"], "registers used only in a branch condition are not read-flagged")
+mut("C14", "float_params_untracked", L + "intermediate_representation/sub.rs", """        let mut register_list: Vec<&Variable> = self.integer_parameter_register.iter().collect();
+        for float_param_expr in self.float_parameter_register.iter() {
+            register_list.append(&mut float_param_expr.input_vars());
+        }
+        register_list
+    }
+
+    /// Return a list of all return registers""", """        let register_list: Vec<&Variable> = self.integer_parameter_register.iter().collect();
+        register_list
+    }
+
+    /// Return a list of all return registers""", ["R1|get_all_parameter_register"], "float parameter registers are not parameters")
+mut("C14", "flag_after_overwrite", FC, """            Def::Assign { var, value } => {
+                new_state.set_read_flag_for_input_ids_of_expression(value);
+                let value = new_state.substitute_global_mem_address(
+                    state.eval(value),
+                    &self.project.runtime_memory_image,
+                );
+                new_state.set_register(var, value);""", """            Def::Assign { var, value: value_expr } => {
+                let value = new_state.substitute_global_mem_address(
+                    state.eval(value_expr),
+                    &self.project.runtime_memory_image,
+                );
+                new_state.set_register(var, value);
+                new_state.set_read_flag_for_input_ids_of_expression(value_expr);""", ["R2|update_def|Assign|flag-before-overwrite"], "read flags computed after the register was overwritten")
+mut("C14", "flag_on_old_state_clone", FC, """            Jmp::CallInd { target, .. } => {
+                new_state.set_read_flag_for_input_ids_of_expression(target);""", """            Jmp::CallInd { target, .. } => {
+                state.clone().set_read_flag_for_input_ids_of_expression(target);""", ["R2|update_call_stub|Jmp::CallInd.target"], "flag set on a temporary instead of the returned state")
+mut("C14", "tracked_skip_first", FS, "        for var in calling_convention.get_all_parameter_register() {", "        for var in calling_convention.get_all_parameter_register().into_iter().skip(1) {", ["R1|State::new"], "first parameter register never tracked")
+mut("C14", "store_value_always_nontrivial", FC, """                } else {
+                    new_state.set_read_flag_for_input_ids_of_expression(value);
+                }""", """                } else {
+                    new_state.set_read_flag_for_input_ids_of_nontrivial_expression(value);
+                }""", ["R2|update_def|Def::Store.value"], "plain register stores to non-stack memory are not reads")
+mut("C14", "extraction_requires_deref", L + "analysis/function_signature/state/call_handling/mod.rs", "|| (id.get_location().recursion_depth() == 0 && access_pattern.is_accessed())", "|| (id.get_location().recursion_depth() == 0 && access_pattern.is_dereferenced())", ["R4|register-params"], "register parameters reported only when dereferenced")
+mut("C14", "intersect_strategy", FS, "tracked_ids: DomainMap<AbstractIdentifier, AccessPattern, UnionMergeStrategy>,", "tracked_ids: DomainMap<AbstractIdentifier, AccessPattern, IntersectMergeStrategy>,", ["R3|tracked_ids|union-strategy"], "ids tracked on one path only are dropped at joins")
+
 for prop, name, spec in M:
     if name.startswith("SILENT_"):
         spec["silent"] = True
